@@ -12,6 +12,7 @@ pub fn pin_clock() {
     sqldatetime::verif_hooks::set_clock(CLOCK.year, CLOCK.month, 11, 17, 6, 8, 912_345);
 }
 
+#[derive(Clone)]
 pub struct P<'a> {
     /// true: the text goes through the type's serde `Deserialize` (a JSON string); the picture must be the type's fixed layout
     pub via_serde: bool,
@@ -424,6 +425,13 @@ pub fn run(ctx: &Ctx, st: &mut Stats) {
                 let sp = spell(rng, &v, &toks, &Opts { lenient, allow_cut: true, pert: None, extra_frac: extra });
                 let exp = denote(ty, &sp.given, CLOCK);
                 evh(st, ty, &pic, &sp.text, exp, if exp.is_ok() { "lenient-spelling" } else { "carry-beyond-range" });
+                if rng.chance(1, 8) {
+                    // the same parse after other operations on related dates
+                    let anchors: Vec<i64> = exp.ok().and_then(|x| x.to_lib()).and_then(|x| x.day_number()).into_iter().collect();
+                    let pr = crate::primers::gen_some(rng, &anchors, 0, &[]);
+                    let c = P { via_serde: false, ty, pic: &pic, text: &sp.text, expect: exp, why: if exp.is_ok() { "lenient-spelling" } else { "carry-beyond-range" } };
+                    st.eval_primed(mix(hash64(pic.as_bytes()), hash64(sp.text.as_bytes())), pr, c, check);
+                }
             }
             6..=8 => {
                 // one component out of its domain / inconsistent / leftover text
@@ -440,6 +448,17 @@ pub fn run(ctx: &Ctx, st: &mut Stats) {
                     return;
                 }
                 evh(st, ty, &pic, &sp.text, Err(()), pert.name());
+                // history: a valid text under the same picture, then the invalid one twice in a row (an error must not
+                // leave anything behind that makes the repeat succeed), through the parser and through serde where it applies
+                if rng.chance(1, 4) {
+                    let good = spell(rng, &v, &toks, &Opts { lenient: false, allow_cut: false, pert: None, extra_frac: None });
+                    let gexp = denote(ty, &good.given, CLOCK);
+                    let via_serde = pic == crate::props::c15::layout(ty) && rng.chance(1, 2);
+                    let bad = P { via_serde, ty, pic: &pic, text: &sp.text, expect: Err(()), why: pert.name() };
+                    let ok = P { via_serde, ty, pic: &pic, text: &good.text, expect: gexp, why: "lenient-spelling" };
+                    let h = mix(mix(hash64(pic.as_bytes()), hash64(sp.text.as_bytes())), mix(hash64(good.text.as_bytes()), via_serde as u64));
+                    st.eval_hist(h, vec![ok, bad.clone(), bad], check);
+                }
             }
             _ => {
                 // a defective picture: repeated code, output-only code, inapplicable code; the text is spelled for the defective picture
